@@ -266,7 +266,7 @@ def cases(rng, tier):
     dz = S.deser_chain_cases(random.Random("dz" + str(rng.getstate()[1][0])), tier, 150 if tier == "quick" else 2500)
     # the element-wise oracle of C02's extras stream, in C01's direction: a leaf value the BARE field rejects must not be
     # accepted at a nested position (oracle-only kinds: enums by value, date / datetime fields, bounded DecimalNumber ...)
-    return base + ext + tp + dec + dz + nestedhook_cases() + X.directed_ctor_cases()
+    return base + ext + tp + dec + dz + nestedhook_cases() + X.directed_ctor_cases() + X.decimal_cases()
 
 
 def search_cases(rng, tier):
@@ -276,7 +276,11 @@ def search_cases(rng, tier):
 
 
 def _i(case):
-    return case.get("suite") in ("inherit", "nestedhook", "extras-ctor")
+    return case.get("suite") in ("inherit", "nestedhook", "extras-ctor", "extras-decimal")
+
+
+def _xd(case):
+    return case.get("suite") == "extras-decimal"
 
 
 def _xc(case):
@@ -288,6 +292,8 @@ def _nh(case):
 
 
 def run_impl(case):
+    if _xd(case):
+        return X.run_decimal(case)
     if _xc(case):
         return X.run_ctor(case)
     if _nh(case):
@@ -300,6 +306,8 @@ def line(case, impl):
 
 
 def tags(case, impl, model):
+    if _xd(case):
+        return ["stream:extras-decimal"]
     if _xc(case):
         return ["stream:extras-ctor", "extras:" + impl.get("out", "skipped")]
     if _nh(case):
@@ -318,6 +326,10 @@ def describe(case, impl, model):
 
 
 def judge(case, impl, model):
+    if _xd(case):
+        # C01's direction of the bound probes: a DecimalNumber beyond its bound must not be stored; what is stored equals the number given
+        return None, ([] if "skip" in impl else [f for f in X.judge_decimal_ctor(case, impl)
+                                                  if f[0].startswith(("extras:decimal:accepts-undocumented", "extras:decimal:normal-form"))])
     if _xc(case):
         return None, [f for f in X.judge_ctor(case, impl) if f[0].startswith("extras:element-not-validated")]
     if _nh(case):
